@@ -120,7 +120,15 @@ def _tailify(stmts: List[ast.stmt], deliver) -> Optional[List[ast.stmt]]:
                 return None
             branches_terminate = _terminates(st.body + st.orelse) and all(_terminates(h.body) for h in st.handlers)
             if rest and not branches_terminate:
-                return None
+                # `try: A except E: return X` followed by REST  ==  `try: A except E: return X else: REST`
+                # (an else clause is not covered by the handlers); a handler that falls through gets its own copy of REST
+                if any(_has_return(x) for x in st.body) or st.finalbody:
+                    return None
+                moved = ast.Try(body=st.body, handlers=[ast.copy_location(ast.ExceptHandler(type=h.type, name=h.name, body=h.body + ([] if _terminates(h.body) else copy.deepcopy(rest))), h) for h in st.handlers],
+                                orelse=st.orelse + rest, finalbody=[])
+                ast.copy_location(moved, st)
+                got = _tailify([moved], deliver)
+                return None if got is None else out + got
             if st.orelse:
                 nb = [x for x in st.body]
                 if any(_has_return(x) for x in nb):
@@ -381,8 +389,8 @@ class Inliner:
                 consumed = True
             if t is None:
                 dup = False
-                if _return_in_loop(body):
-                    return None
+                if _return_in_loop(body) or kind != "expr":
+                    return None  # a merged result variable would lose which branch produced it: do not inline
                 res = "_h%d_result" % uid
 
                 class R(ast.NodeTransformer):
@@ -775,6 +783,96 @@ def reshaped(repo: Repo, relpath: str, roots: Iterable[str]) -> Repo:
     if not changed:
         return repo
     ast.fix_missing_locations(tree)
+    try:
+        compile(tree, relpath, "exec")
+    except Exception:
+        return repo
+    r = repo.with_module(relpath, tree=tree)
+    if hasattr(repo, "inlined_helpers"):
+        r.inlined_helpers = repo.inlined_helpers  # type: ignore[attr-defined]
+    return r
+
+
+# ---------------------------------------------------------------------------
+# round 11: locals that merely alias a module attribute (`isdir = os.path.isdir`)
+
+
+def dealias_module_attrs(fn: ast.AST, modules=("os", "binascii", "base64", "hmac", "hashlib", "time")) -> bool:
+    """A local bound exactly once (plain or pairwise tuple assignment) to an attribute chain of an imported module
+    is replaced by that chain in the whole function."""
+    params = {a.arg for a in fn.args.posonlyargs + fn.args.args + fn.args.kwonlyargs}
+    stores: Dict[str, int] = {}
+    for x in q.walk_body(fn):
+        if isinstance(x, ast.Name) and isinstance(x.ctx, (ast.Store, ast.Del)):
+            stores[x.id] = stores.get(x.id, 0) + 1
+    alias: Dict[str, ast.AST] = {}
+    for x in q.walk_body(fn):
+        if isinstance(x, ast.Assign) and len(x.targets) == 1:
+            pairs = []
+            t, v = x.targets[0], x.value
+            if isinstance(t, ast.Name):
+                pairs = [(t, v)]
+            elif isinstance(t, (ast.Tuple, ast.List)) and isinstance(v, (ast.Tuple, ast.List)) and len(t.elts) == len(v.elts):
+                pairs = list(zip(t.elts, v.elts))
+            for tt, vv in pairs:
+                d = q.dotted(vv) if isinstance(vv, ast.Attribute) else None
+                if isinstance(tt, ast.Name) and d and d.split(".")[0] in modules and d.split(".")[0] not in params and d.split(".")[0] not in stores \
+                        and stores.get(tt.id) == 1 and tt.id not in params:
+                    alias[tt.id] = vv
+    if not alias:
+        return False
+
+    class T(ast.NodeTransformer):
+        def visit_Name(self, node):
+            if node.id in alias and isinstance(node.ctx, ast.Load):
+                return ast.copy_location(copy.deepcopy(alias[node.id]), node)
+            return node
+
+        def visit_FunctionDef(self, node):
+            return node
+
+        def visit_Lambda(self, node):
+            return node
+
+    for i, st in enumerate(fn.body):
+        fn.body[i] = T().visit(st)
+    ast.fix_missing_locations(fn)
+    return True
+
+
+def dealiased(repo: Repo, relpath: str, roots: Iterable[str]) -> Repo:
+    if not relpath.startswith("tornado/"):
+        relpath = "tornado/" + relpath
+    mod = repo.modules.get(relpath)
+    if mod is None:
+        return repo
+    roots = set(roots)
+
+    def targets(tree):
+        for st in tree.body:
+            if isinstance(st, FuncNode) and st.name in roots:
+                yield st
+            elif isinstance(st, ast.ClassDef):
+                for s2 in st.body:
+                    if isinstance(s2, FuncNode) and (st.name + "." + s2.name) in roots:
+                        yield s2
+
+    def has_alias(f):
+        for x in q.walk_body(f):
+            if isinstance(x, ast.Assign):
+                vals = x.value.elts if isinstance(x.value, (ast.Tuple, ast.List)) else [x.value]
+                if any(isinstance(v, ast.Attribute) and (q.dotted(v) or "").split(".")[0] in ("os", "binascii", "base64", "hmac", "hashlib", "time") for v in vals):
+                    return True
+        return False
+
+    if not any(has_alias(f) for f in targets(mod.tree)):
+        return repo
+    tree = copy.deepcopy(mod.tree)
+    changed = False
+    for f in targets(tree):
+        changed = dealias_module_attrs(f) or changed
+    if not changed:
+        return repo
     try:
         compile(tree, relpath, "exec")
     except Exception:
